@@ -15,6 +15,7 @@ import (
 
 	"github.com/sarchlab/akita/v4/mem/mem"
 	"github.com/sarchlab/akita/v4/mem/vm"
+	"github.com/sarchlab/akita/v4/sim"
 	"github.com/sarchlab/mgpusim/v4/amd/driver"
 
 	ab "verifharness/akitabench"
@@ -31,6 +32,7 @@ type Scenario struct {
 	Hold     []string `json:"hold"`     // "kind@point" entries granted only when nothing else can run
 	Reverse  bool     `json:"reverse"`  // tie-break order
 	Seed     int64    `json:"seed"`
+	Temp     []int    `json:"temp"` // application threads (1-based) that use the blocking API (a fresh queue per round) in one shared context
 }
 
 type runner struct {
@@ -38,7 +40,9 @@ type runner struct {
 	S      *sched.Sched
 	eng    *sched.Engine
 	d      *driver.Driver
-	queues []*driver.CommandQueue
+	queues []*driver.CommandQueue // newest queue of each application thread (nil before its first creation)
+	owner  map[*driver.CommandQueue]int
+	nq     int
 	sc     Scenario
 	rng    *rand.Rand
 	rr     int
@@ -54,13 +58,29 @@ func kindOf(name string) string {
 	return name
 }
 
-func (r *runner) qIndex(q *driver.CommandQueue) int {
-	for i, x := range r.queues {
-		if x == q {
-			return i + 1
+// qKey identifies a queue for the trace: 10*owner + (1 if it is the owner's newest queue).
+func (r *runner) qKey(q *driver.CommandQueue) int {
+	if q == nil {
+		return 0
+	}
+	o, ok := r.owner[q]
+	if !ok {
+		return 0
+	}
+	live := 0
+	if r.queues[o-1] == q {
+		live = 1
+	}
+	return 10*o + live
+}
+
+func (r *runner) isTemp(a int) bool {
+	for _, t := range r.sc.Temp {
+		if t == a {
+			return true
 		}
 	}
-	return 0
+	return false
 }
 
 func (r *runner) enabled(t *sched.Thread) bool {
@@ -95,6 +115,8 @@ func pcOf(t *sched.Thread) string {
 			return "parked"
 		case "select":
 			return "inselect"
+		case "create":
+			return "creating"
 		}
 		return "blocked_" + t.Point
 	case sched.Gone:
@@ -111,6 +133,7 @@ func (r *runner) projection() ab.Rec {
 	rpc := "none"
 	epc := []string{}
 	eq := 0
+	var eqQueue *driver.CommandQueue
 	for _, t := range r.S.Threads() {
 		switch kindOf(t.Name) {
 		case "app":
@@ -128,16 +151,19 @@ func (r *runner) projection() ab.Rec {
 				continue
 			}
 			epc = append(epc, pcOf(t))
-			if k, ok := t.Key.(int); ok && (t.Point == "scan" || t.Point == "deq" || t.Point == "deqNotify") {
-				eq = k
+			if q, ok := t.Key.(*driver.CommandQueue); ok && (t.Point == "scan" || t.Point == "deq" || t.Point == "deqNotify") {
+				eqQueue = q
 			}
 		}
 	}
 	lens := make([]int, len(r.queues))
 	for i, q := range r.queues {
-		lens[i] = q.NumCommand()
+		if q != nil {
+			lens[i] = q.NumCommand()
+		}
 	}
-	return ab.Rec{"apc": apc, "rpc": rpc, "epc": epc, "eq": eq, "len": lens,
+	eq = r.qKey(eqQueue)
+	return ab.Rec{"apc": apc, "rpc": rpc, "epc": epc, "eqa": eq / 10, "eql": eq%10 == 1, "nq": r.nq, "len": lens,
 		"run": r.d.VerifEngineRunning(), "ev": r.eng.PendingEvents()}
 }
 
@@ -212,14 +238,45 @@ func runScenario(rec *ab.Recorder, sc Scenario) (hang bool, steps int, err error
 	}
 	r.eng = sched.NewEngine(r.S)
 	r.d = driver.MakeBuilder().WithEngine(r.eng).WithLog2PageSize(12).WithPageTable(vm.NewPageTable(12)).
-		WithGlobalStorage(mem.NewStorage(1 << 20)).WithMagicMemoryCopyMiddleware().Build("Driver")
-	for a := 0; a < sc.NA; a++ {
-		ctx := r.d.Init()
-		r.queues = append(r.queues, r.d.CreateCommandQueue(ctx))
+		WithGlobalStorage(mem.NewStorage(8 << 30)).WithMagicMemoryCopyMiddleware().Build("Driver")
+	r.owner = map[*driver.CommandQueue]int{}
+	r.queues = make([]*driver.CommandQueue, sc.NA)
+	var shared *driver.Context
+	ptrs := make([]driver.Ptr, sc.NA)
+	if len(sc.Temp) > 0 {
+		// blocking-API threads: one shared context, a registered (stub) GPU so that memory can be allocated
+		r.d.RegisterGPU(sim.NewPort(nil, 1, 1, "StubGPU.ToDriver"), driver.DeviceProperties{CUCount: 4, DRAMSize: 1 << 30})
+		shared = r.d.Init()
 	}
-	rec.Emit("Reset", ab.Rec{"na": sc.NA, "rounds": sc.Rounds, "per_round": sc.PerRound})
+	for a := 0; a < sc.NA; a++ {
+		ctx := shared
+		if ctx == nil {
+			ctx = r.d.Init()
+		}
+		if r.isTemp(a + 1) {
+			ptrs[a] = r.d.AllocateMemory(ctx, 64)
+			continue
+		}
+		q := r.d.CreateCommandQueue(ctx)
+		r.queues[a] = q
+		r.owner[q] = a + 1
+		r.nq++
+	}
+	temp := append([]int{}, sc.Temp...)
+	rec.Emit("Reset", ab.Rec{"na": sc.NA, "rounds": sc.Rounds, "per_round": sc.PerRound, "temp": temp})
 	driver.VerifYield = func(point string, q *driver.CommandQueue) {
-		r.S.Yield(point, r.qIndex(q))
+		if q != nil {
+			if _, ok := r.owner[q]; !ok {
+				// a queue created inside a blocking API call: first seen when its creator enqueues
+				var idx int
+				if n, _ := fmt.Sscanf(r.S.NameOf(sched.GID()), "app%d", &idx); n == 1 {
+					r.owner[q] = idx
+					r.queues[idx-1] = q
+					r.nq++
+				}
+			}
+		}
+		r.S.Yield(point, q)
 	}
 	defer func() { driver.VerifYield = nil }()
 	r.d.Run()
@@ -230,13 +287,19 @@ func runScenario(rec *ab.Recorder, sc Scenario) (hang bool, steps int, err error
 			q := r.queues[a]
 			n := 0
 			for rd := 0; rd < sc.Rounds; rd++ {
+				if r.isTemp(a + 1) {
+					// blocking API style: CreateCommandQueue; Enqueue; DrainCommandQueue inside MemCopyH2D
+					r.S.Yield("create", nil)
+					r.d.MemCopyH2D(shared, ptrs[a], []byte{byte(rd), byte(a), 3, 4})
+					continue
+				}
 				for k := 0; k < sc.PerRound; k++ {
 					n++
 					r.d.Enqueue(q, &driver.NoopCommand{ID: fmt.Sprintf("a%d-%d", a+1, n)})
 				}
 				r.d.DrainCommandQueue(q)
 			}
-			r.S.Yield("returned", a+1)
+			r.S.Yield("returned", nil)
 		}()
 	}
 	names := []string{"ra"}
@@ -273,7 +336,8 @@ func runScenario(rec *ab.Recorder, sc Scenario) (hang bool, steps int, err error
 		}
 		t := r.pick(en, steps)
 		name, from := t.Name, t.Point
-		key, _ := t.Key.(int)
+		kq, _ := t.Key.(*driver.CommandQueue)
+		key := r.qKey(kq) / 10
 		if err = r.S.Grant(t); err != nil {
 			return
 		}
